@@ -103,9 +103,10 @@ CALLEES = {
     "ABTI_thread_init_pool": ("fallible",),        # unit creation + unit map; undone by the callee itself on failure
     "ABTI_thread_set_associated_pool": ("fallible",),
     "ABTI_thread_get_mig_data": ("fallible",),                                 # *
-    "xstream_update_main_sched": ("fstore", "{3}->used", 1),                   # *  (ABTI_SCHED_MAIN; see enum check below)
+    "xstream_update_main_sched": ("fstore", "{3}->used", "ABTI_SCHED_MAIN"),   # *
     "ABTI_sched_discard_and_free": ("rel", "{2}", True),     # the pending replacement scheduler (not tracked: lax)
     "ABTI_unit_map_thread": ("acq", "unitmap", "map:{1}"),
+    "ABTI_unit_unmap_thread": ("rel", "map:{1}", False),
     "ABTI_ktable_create": ("acq", "ktable", "*{2}"),
     "ABTI_ktable_alloc_elem": ("fallible",),
     "ABTI_ktable_set_impl": ("fallible",),
@@ -198,6 +199,19 @@ ROUTINES = [
     dict(fn="ABT_pool_create", file="pool/pool.c"),
     dict(fn="ABTI_pool_create_basic", file="pool/pool.c"),
     dict(fn="ABT_pool_add_sched", file="pool/pool.c", pres=["sched"], tracked={"sched->used": 0}),
+    # main-scheduler replacement: `p_sched->used` and the stream's scheduler pointer are visible state that a failed
+    # call must not change (or must roll back); the three branches: first installation / another (joined) stream /
+    # the caller's own stream
+    dict(fn="xstream_update_main_sched", file="stream.c", pres=["p_sched", "p_xstream->p_main_sched"],
+         tracked={"p_sched->used": 0}),
+    dict(fn="xstream_update_main_sched", name="xstream_update_main_sched_first", file="stream.c", pres=["p_sched"],
+         nulls=["p_xstream->p_main_sched"], tracked={"p_sched->used": 0}),
+    dict(fn="ABT_xstream_set_main_sched", file="stream.c", nulls=["sched"]),
+    dict(fn="ABT_xstream_set_main_sched", name="ABT_xstream_set_main_sched_given", file="stream.c", pres=["sched"],
+         tracked={"p_sched->used": 0}),
+    dict(fn="ABT_xstream_set_main_sched_basic", file="stream.c", param="num_pools", over={"ABTI_pool_release": PURE}),
+    # re-association of an existing unit (revive, push, migration, set_associated_pool, main-scheduler ULT)
+    dict(fn="ABTI_thread_set_associated_pool", file="unit.c", pres=["p_thread->unit", "map:unit"]),
     dict(fn="ABTI_thread_init_pool", file="unit.c", pres=["p_thread"]),
     dict(fn="ABTI_ktable_create", file="thread.c"),
     dict(fn="ABT_eventual_create", file="eventual.c"),
@@ -606,7 +620,7 @@ class Tr:
             if path in self.tracked:
                 lskip = self.newlabel("fstore")
                 self.emit("br", ("cmp", "ne", e, 0), False, lskip)
-                self.emit("seti", self.ref(path), cls[2])
+                self.emit("seti", self.ref(path), self.enums[cls[2]] if isinstance(cls[2], str) else cls[2])
                 self.emit("label", lskip)
         elif kind == "err":
             if errvar:
@@ -1363,6 +1377,10 @@ def render(progs, sites):
         L.append("  pres := [%s]" % ", ".join(str(t.vars[p]) for p in t.cfg.get("pres", []) + t.extra_pres))
         L.append("  outs := [%s]" % ", ".join(str(t.vars[p]) for p in t.outs))
         L.append("  tracked := [%s]" % ", ".join("(%d, %s)" % (t.vars[p], lean_int(v)) for p, v in t.tracked.items()))
+        pres_all = t.cfg.get("pres", []) + t.extra_pres
+        flds = [(q, pres_all.index(q)) for q in t.cfg.get("pres", []) if "->" in q] + \
+               [(q, None) for q in t.cfg.get("nulls", []) if "->" in q]
+        L.append("  fields := [%s]" % ", ".join("(%d, %s)" % (t.var(q), "none" if i is None else "some %d" % i) for q, i in flds))
         L.append("  preArrays := [%s]" % ", ".join(str(t.var(a + "[]")) for a in t.cfg.get("prearr", [])))
         L.append("  param := %s }" % ("none" if not t.param else "some %d" % t.var(t.param)))
         vn = sorted(t.vars.items(), key=lambda kv: kv[1])
